@@ -21,3 +21,24 @@ package coroutines
 //@ ensures (res != nil) != (err != nil)
 //@ ensures err == nil ==> res.Kind == t_api.CompletePromise && res.CompletePromise != nil
 //@ ensures err == nil ==> linearizes(res.CompletePromise.Status == seq.complete.status(pre_promises(r.CompletePromise.Id), T, r.CompletePromise.State, opt(r.CompletePromise.IdempotencyKey), r.CompletePromise.Strict) && post_promises(r.CompletePromise.Id) == seq.complete.row(pre_promises(r.CompletePromise.Id), T, r.CompletePromise.State, r.CompletePromise.Value.Headers, r.CompletePromise.Value.Data, opt(r.CompletePromise.IdempotencyKey)) && (res.CompletePromise.Status != t_api.StatusPromiseNotFound ==> res.CompletePromise.Promise != nil && pview(res.CompletePromise.Promise) == pview.row(post_promises(r.CompletePromise.Id))))
+
+//@ macro create_post(status, shown, req) linearizes((!pre_promises(req.Id).present ==> status == t_api.StatusCreated && seq.create.row.ok(post_promises(req.Id), req.Id, req.Param.Headers, req.Param.Data, req.Timeout, opt(req.IdempotencyKey), req.Tags, T)) && (pre_promises(req.Id).present ==> status == seq.create.status.exists(pre_promises(req.Id), T, opt(req.IdempotencyKey), req.Strict) && post_promises(req.Id) == p.effective(pre_promises(req.Id), T)) && shown != nil && pview(shown) == pview.row(post_promises(req.Id)))
+
+//@ func createPromiseAndTask
+//@ props C01 C02 C03 C04 C08
+//@ ghostdb coroutine
+//@ requires c != nil && r != nil && createPromiseReq != nil
+//@ requires r.Kind == t_api.CreatePromise || r.Kind == t_api.CreatePromiseAndTask
+//@ requires r.Kind == t_api.CreatePromiseAndTask ==> taskCmd != nil
+//@ requires taskCmd != nil ==> taskCmd.Mesg != nil && taskCmd.State == task.Claimed && taskCmd.ProcessId != nil
+//@ ensures (res != nil) != (err != nil)
+//@ ensures err == nil ==> res.Kind == r.Kind
+//@ ensures err == nil && r.Kind == t_api.CreatePromise ==> res.CreatePromise != nil && create_post(res.CreatePromise.Status, res.CreatePromise.Promise, createPromiseReq)
+//@ ensures err == nil && r.Kind == t_api.CreatePromiseAndTask ==> res.CreatePromiseAndTask != nil && create_post(res.CreatePromiseAndTask.Status, res.CreatePromiseAndTask.Promise, createPromiseReq)
+
+//@ func CreatePromise
+//@ props C01 C02 C03 C04 C08
+//@ ghostdb coroutine
+//@ requires c != nil && r != nil && r.CreatePromise != nil && r.Kind == t_api.CreatePromise
+//@ ensures (res != nil) != (err != nil)
+//@ ensures err == nil ==> res.Kind == t_api.CreatePromise && res.CreatePromise != nil && create_post(res.CreatePromise.Status, res.CreatePromise.Promise, r.CreatePromise)
